@@ -28,7 +28,13 @@ func ToMultiAlign(samIn io.Reader, out io.Writer, wrap int, trimstart int, trime
 
 	go groupSamRecords(samIn, cSH, cSR, cReadDone, cErr)
 
-	header := <-cSH
+	// (the reader reports a missing or unreadable header on the error channel instead)
+	var header biogosam.Header
+	select {
+	case err := <-cErr:
+		return err
+	case header = <-cSH:
+	}
 	refLen := header.Refs()[0].Len()
 
 	trimstart, trimend, trim, err := checkArgs(refLen, trimstart, trimend)
